@@ -57,9 +57,9 @@ Theorem hem_truncated l r a b : l <= r -> a <= b -> finite INF l -> finite INF r
   is_RInt (fun x => x ^ 2 * truncated_nu (hem_nu lam p e1 e2) l r x) a b (truncated_integrate (hem_integrate_xx INF lam p e1 e2) l r a b).
 Proof.
   intros Hlr Hab Fl Fr Fa Fb. repeat split.
-  - apply (truncated_is_RInt _ 0%nat _ anyR hem_mass_HF l r Hlr I I a b Hab I I).
-  - apply (truncated_is_RInt _ 1%nat _ (finite INF) hem_x_HF l r Hlr Fl Fr a b Hab Fa Fb).
-  - apply (truncated_is_RInt _ 2%nat _ (finite INF) hem_xx_HF l r Hlr Fl Fr a b Hab Fa Fb).
+  - apply (truncated_is_RInt_D _ 0%nat _ anyR hem_mass_HF l r Hlr I I a b Hab I I).
+  - apply (truncated_is_RInt_D _ 1%nat _ (finite INF) hem_x_HF l r Hlr Fl Fr a b Hab Fa Fb).
+  - apply (truncated_is_RInt_D _ 2%nat _ (finite INF) hem_xx_HF l r Hlr Fl Fr a b Hab Fa Fb).
 Qed.
 End Hem.
 
@@ -197,32 +197,49 @@ Proof.
   intros E. lra.
 Qed.
 
+(* truncation of an INFINITE-activity mass: l < 0 < r (every chain truncation) is allowed as long as the clipped interval
+   [max a l, min b r] stays on one side of zero, where the VG mass is finite *)
+Theorem vg_mass_truncated INF c lm lp c0 l r a b : 0 < lm -> 0 < lp -> 0 < INF -> l <= r -> a <= b ->
+  let aa := fst (truncated_interval l r a b) in let bb := snd (truncated_interval l r a b) in
+  (0 < aa \/ bb < 0) -> - INF < aa -> bb < INF ->
+  is_RInt (fun x => x ^ 0 * truncated_nu (vg_nu c lm lp) l r x) a b (truncated_integrate (vg_integrate (E1c c0) INF c lm lp) l r a b).
+Proof.
+  intros Hm Hp HI Hlr Hab aa bb Hside Fa Fb.
+  apply (truncated_is_RInt (vg_nu c lm lp) 0%nat _ (fun x y => (0 < x \/ y < 0) /\ - INF < x /\ y < INF)); try assumption.
+  - intros x y Hxy (Hs & Fx & Fy). apply vg_mass_is_RInt; assumption.
+  - fold aa bb. repeat split; assumption.
+Qed.
+
 (* ------------------------------------------------------------------ statements of Properties/C09.v assembled from the lemmas above *)
 Lemma c09_hem_left_halfline_pf : forall INF lam p eta1 eta2, 0 < eta1 -> 0 < eta2 -> forall b, b <= 0 -> - INF <= b ->
   is_lim (fun a => RInt (fun x => x ^ 0 * hem_nu lam p eta1 eta2 x) a b) m_infty (hem_integrate_left lam p eta2 b) /\
   is_lim (fun a => RInt (fun x => x ^ 1 * hem_nu lam p eta1 eta2 x) a b) m_infty (hem_integrate_x INF lam p eta1 eta2 (- INF) b) /\
   is_lim (fun a => RInt (fun x => x ^ 2 * hem_nu lam p eta1 eta2 x) a b) m_infty (hem_integrate_xx INF lam p eta1 eta2 (- INF) b).
 Proof. intros. repeat split; [apply hem_mass_left | apply hem_x_left | apply hem_xx_left]; assumption. Qed.
-
 Lemma c09_hem_right_halfline_pf : forall INF lam p eta1 eta2, 0 < eta1 -> 0 < eta2 -> forall a, 0 <= a -> 0 < INF -> a <= INF ->
   is_lim (fun b => RInt (fun x => x ^ 0 * hem_nu lam p eta1 eta2 x) a b) p_infty (hem_integrate_right lam p eta1 a) /\
   is_lim (fun b => RInt (fun x => x ^ 1 * hem_nu lam p eta1 eta2 x) a b) p_infty (hem_integrate_x INF lam p eta1 eta2 a INF) /\
   is_lim (fun b => RInt (fun x => x ^ 2 * hem_nu lam p eta1 eta2 x) a b) p_infty (hem_integrate_xx INF lam p eta1 eta2 a INF).
 Proof. intros. repeat split; [apply hem_mass_right | apply hem_x_right | apply hem_xx_right]; assumption. Qed.
 
-Lemma c09_cgmy_mass_partial_pf : forall (G : R -> R -> R),
+Lemma c09_cgmy_mass_pf : forall (E1 : R -> R) (G : R -> R -> R),
+  (forall x, 0 < x -> is_derive E1 x (- (exp (- x) / x))) ->
   (forall s x, 0 < x -> is_derive (G s) x (- (Rpower x (s - 1) * exp (- x)))) ->
-  forall c g m y, 0 < g -> 0 < m -> y <> 0 -> y <> 1 ->
-  (forall a b, 0 < a -> a <= b -> is_RInt (fun x => x ^ 0 * cgmy_nu c g m y x) a b (cgmy_integrate_pos G c m y a b)) /\
-  (forall a b, a <= b -> b < 0 -> is_RInt (fun x => x ^ 0 * cgmy_nu c g m y x) a b (cgmy_integrate_neg G c g y a b)).
-Proof. intros. split; intros; [apply cgmy_mass_pos_is_RInt | apply cgmy_mass_neg_is_RInt]; assumption. Qed.
-
-Lemma c09_cgmy_x_partial_pf : forall (G : R -> R -> R),
+  forall c g m y, 0 < g -> 0 < m -> y < 2 ->
+  (forall a b, 0 < a -> a <= b -> is_RInt (fun x => x ^ 0 * cgmy_nu c g m y x) a b (cgmy_mass_pos_code E1 G c m y a b)) /\
+  (forall a b, a <= b -> b < 0 -> is_RInt (fun x => x ^ 0 * cgmy_nu c g m y x) a b (cgmy_mass_neg_code E1 G c g y a b)).
+Proof. intros. split; intros; [apply cgmy_mass_pos_code_is_RInt | apply cgmy_mass_neg_code_is_RInt]; assumption. Qed.
+Lemma c09_cgmy_x_pf : forall (E1 : R -> R) (G : R -> R -> R),
+  (forall x, 0 < x -> is_derive E1 x (- (exp (- x) / x))) ->
   (forall s x, 0 < x -> is_derive (G s) x (- (Rpower x (s - 1) * exp (- x)))) ->
-  forall c g m y, 0 < g -> 0 < m -> y <> 1 ->
-  (forall a b, 0 < a -> a <= b -> is_RInt (fun x => x ^ 1 * cgmy_nu c g m y x) a b (cgmy_integrate_x_pos G c m y a b)) /\
-  (forall a b, a <= b -> b < 0 -> is_RInt (fun x => x ^ 1 * cgmy_nu c g m y x) a b (cgmy_integrate_x_neg G c g y a b)).
-Proof. intros. split; intros; [apply cgmy_x_pos_is_RInt | apply cgmy_x_neg_is_RInt]; assumption. Qed.
+  forall c g m y, 0 < g -> 0 < m ->
+  (forall a b, 0 < a -> a <= b -> is_RInt (fun x => x ^ 1 * cgmy_nu c g m y x) a b (cgmy_x_pos_code E1 G c m y a b)) /\
+  (forall a b, a <= b -> b < 0 -> is_RInt (fun x => x ^ 1 * cgmy_nu c g m y x) a b (cgmy_x_neg_code E1 G c g y a b)).
+Proof. intros. split; intros; [apply cgmy_x_pos_code_is_RInt | apply cgmy_x_neg_code_is_RInt]; assumption. Qed.
+Lemma c09_special_models_pf : forall c0 g0,
+  (forall x, 0 < x -> is_derive (E1c c0) x (- (exp (- x) / x))) /\
+  (forall s x, 0 < x -> is_derive (Gupc g0 s) x (- (Rpower x (s - 1) * exp (- x)))).
+Proof. intros. split; intros; [apply E1c_derive | apply Gupc_derive]; assumption. Qed.
 
 Lemma c09_sign_pf : forall (nu : R -> R), (forall x, 0 <= nu x) -> forall (n : nat) (F : R -> R -> R) (D : R -> Prop),
   (forall a b, a <= b -> D a -> D b -> is_RInt (fun x => x ^ n * nu x) a b (F a b)) ->
@@ -234,18 +251,15 @@ Proof.
   - apply (sign_right nu Hnu n F D HF); assumption.
   - apply (sign_left_odd nu Hnu n F D HF); assumption.
 Qed.
-
 Lemma c09_additive_sign_xn_exp_pf : forall n alpha a b c, 0 < alpha -> a <= b <= c ->
   integral_xn_exp_minus_x n alpha a c = integral_xn_exp_minus_x n alpha a b + integral_xn_exp_minus_x n alpha b c /\
   (Nat.even n = true -> 0 <= integral_xn_exp_minus_x n alpha a c) /\
   (0 <= a -> 0 <= integral_xn_exp_minus_x n alpha a c) /\
   (c <= 0 -> Nat.even n = false -> integral_xn_exp_minus_x n alpha a c <= 0).
 Proof. intros n alpha a b c Ha H. split; [apply (xn_exp_additive n alpha a b c Ha H) | apply xn_exp_sign; [assumption | lra]]. Qed.
-
 Lemma c09_truncated_density_pf : forall nu l r x,
   ((x < l \/ r < x) -> truncated_nu nu l r x = 0) /\ (l <= x <= r -> truncated_nu nu l r x = nu x).
 Proof. intros. split; [apply truncated_nu_outside | apply truncated_nu_inside]. Qed.
-
 Lemma c09_nonvacuous_pf : hem_integrate 9 3 (2/5) 10 5 (-1) 0 = 3 * (1 - 2/5) * (exp (5 * 0) - exp (5 * -1))
   /\ truncated_interval (-1) 2 (-3) 1 = (-1, 1).
 Proof.
